@@ -41,7 +41,7 @@ func zzH_SRV() {
 	}
 	s.SetBufferSize(bufSize)
 	m := newZZMsgs(8)
-	m.yieldW = false
+	m.yieldW = vParam("srv.yieldw", 0) == 1 // srv.yieldw=1: a response write takes time (other goroutines run meanwhile)
 	var enc Encoder
 	switch vChoose("header-encoder", vParam("srv.encoders", 1)) {
 	case 1:
@@ -87,7 +87,10 @@ func zzH_SRV() {
 	// one at a time without waiting for the server (frames interleave with running handlers)
 	batch := vChoose("batch", 2+vParam("srv.pacing", 0))
 	together := batch >= 1
-	for _, r := range reqs {
+	// srv.firstalone=1: the first frame is dealt with completely before the others arrive together
+	// (what it left behind in the pools meets two requests in flight at once)
+	firstAlone := vParam("srv.firstalone", 0) == 1
+	for ri, r := range reqs {
 		var upg []byte
 		if r.kind == 5 {
 			upg = zzUpgBytes(zzUpgPing)
@@ -96,7 +99,7 @@ func zzH_SRV() {
 			upg = zzUpgBytes(0x40)
 		}
 		m.deliver(zzRequestEnc(enc, r.seq, upg, r.method, r.args))
-		if !together {
+		if !together || (firstAlone && ri == 0) {
 			vQuiesce()
 		}
 		if batch == 2 {
